@@ -73,6 +73,14 @@ def enumerate_cases(tier, scope):
                     if other:
                         procs.append({'program': SHAPES[other], 'pid': 2})
                     yield {'procs': procs, 'start_gaps': [0, gap][: len(procs)], 'nested': False, 'ctl': ctl}
+        for name in ('y3', 'gate', 'sync', 'cwait'):
+            for other in (None, 'y3'):
+                for tick in (0, 1, 2, 4):
+                    for what in ('soon_async', 'soon_plain'):
+                        procs = [{'program': SHAPES[name], 'pid': 1}]
+                        if other:
+                            procs.append({'program': SHAPES[other], 'pid': 2})
+                        yield {'procs': procs, 'start_gaps': [0, 1][: len(procs)], 'nested': False, 'ctl': [[tick, '1', what], [tick + 1, 'any', what]]}
         for other in names + [None]:
             for gap in (0, 1, 2):
                 procs = [{'program': LATE_HELPER, 'pid': 1}]
@@ -198,7 +206,7 @@ def _cases(draw, tier):
     gaps = [draw(st.integers(0, 3)) for _ in range(n)]
     ctl = []
     for _ in range(draw(st.integers(0, 3))):
-        ctl.append([draw(st.integers(0, 12)), draw(st.sampled_from(['any-child', 'any-child', 'any'])), draw(st.sampled_from(['pause', 'play', 'play', 'kill']))])
+        ctl.append([draw(st.integers(0, 12)), draw(st.sampled_from(['any-child', 'any-child', 'any'])), draw(st.sampled_from(['pause', 'play', 'play', 'kill', 'soon_async', 'soon_plain']))])
     case = {'procs': procs, 'start_gaps': gaps, 'nested': nested, 'ctl': sorted(ctl)}
     if draw(st.integers(0, 2)) == 0:
         # only from hooks that the process's own stepping fires (on_playing & co. run in the code of whoever plays)
@@ -224,6 +232,21 @@ class _NoBlockSelector:
 
     def __getattr__(self, name):
         return getattr(self._inner, name)
+
+
+def _probe(proc, kind, w):
+    pid = proc.pid
+
+    class AsyncProbe:
+        async def __call__(self):
+            w.tr(pid, {'k': 'cb', 'tag': 'ext-async', 'cur': Process.current() is proc, 'state': proc.state.value})
+            await asyncio.sleep(0)
+            w.tr(pid, {'k': 'cb-resumed', 'tag': 'ext-async', 'cur': Process.current() is proc, 'state': proc.state.value})
+
+    def plain_probe():
+        w.tr(pid, {'k': 'cb', 'tag': 'ext-plain', 'cur': Process.current() is proc, 'state': proc.state.value})
+
+    return AsyncProbe() if kind == 'soon_async' else plain_probe
 
 
 def _uses_nested(program):
@@ -300,7 +323,12 @@ def execute(case):
                         targets = [p for p in everyone if str(p.pid) == ev[1]]
                     for target in targets:
                         with loop.as_running():
-                            if ev[2] == 'pause':
+                            if ev[2] in ('soon_async', 'soon_plain'):
+                                # whoever holds the process schedules a callback on it from outside any process code: a
+                                # callable object with an async __call__, or a plain function
+                                if not target.has_terminated():
+                                    target.call_soon(_probe(target, ev[2], w))
+                            elif ev[2] == 'pause':
                                 target.pause('ext')
                                 externally_paused.add(target.pid)
                             elif ev[2] == 'play':
